@@ -1,11 +1,27 @@
 #!/venv/bin/python
-"""Markdown table of what the committed evidence files report (quick tier)."""
+"""Markdown table for DESIGN.md section 9 from two directories of evidence files.
+
+usage: budget_table.py [quick evidence dir (default /verif/evidence)] [thorough evidence dir]
+(a thorough run that must not overwrite the committed evidence: MC_EVIDENCE_DIR=<dir> python -m mc <ID> --tier thorough)"""
 import glob
 import json
-print('| check | level | executions | transitions | states | traces compared | programs | wall s |')
-print('|---|---|---|---|---|---|---|---|')
-for f in sorted(glob.glob('/verif/evidence/C*.json')):
-    e = json.load(open(f))
+import os
+import sys
+
+quick = sys.argv[1] if len(sys.argv) > 1 else '/verif/evidence'
+thorough = sys.argv[2] if len(sys.argv) > 2 else None
+
+
+def row(e):
     c = e['coverage']
-    print('| %s | %s | %s | %s | %s | %s | %s | %s |' % (e['property_id'], e['level'], f"{c['evaluations']:,}", f"{c['transitions']:,}", f"{c['states']:,}",
-                                                       f"{c['traces_validated_against_impl']:,}", c.get('programs', ''), e['wall_s']))
+    return '%s | %s | %s | %s s' % (f"{c['evaluations']:,}", f"{c['transitions']:,}", f"{c['states']:,}", round(e['wall_s']))
+
+
+print('| check | quick: executions | transitions | distinct states | wall | thorough: executions | transitions | distinct states | wall |')
+print('|---|---|---|---|---|---|---|---|---|')
+for f in sorted(glob.glob(os.path.join(quick, 'C*.json'))):
+    e = json.load(open(f))
+    t = None
+    if thorough and os.path.exists(os.path.join(thorough, os.path.basename(f))):
+        t = json.load(open(os.path.join(thorough, os.path.basename(f))))
+    print('| %s | %s | %s |' % (e['property_id'], row(e), row(t) if t else ' | | | '))
